@@ -354,6 +354,8 @@ def write_replays(pid, violations, lines, limit=20):
 # --------------------------------------------------------------------------- main
 
 def run(pid, tier, seed, replay=None, keep=False, skip_mc=False):
+    if replay:
+        replay = os.path.abspath(replay)
     if pid not in PROPS:
         print(f"unknown property {pid}", file=sys.stderr)
         return 2
